@@ -1,8 +1,8 @@
 // c18: binds Jobs.tla to the real fq code: decode+display jobs sharing the process-wide registry.
 //
-//	c18 vet   <specs> <out> <nworkers> <memKB> <perJobSec>   every spec alone in RLIMIT_AS workers (non-race build): result hash + class
+//	c18 vet   <specs> <out> <nworkers> <memKB> <perJobSec>   every spec in a process of its own under RLIMIT_AS (non-race build): the lone result
+//	c18 one                                                   that process: spec on stdin, result (hash, class, size, CPU ms) on stdout
 //	c18 formats                                               registered groups and their default in-args (JSON)
-//	c18 worker                                                worker side of vet
 //	c18 solo  <specs> <out> <orderSeed> <repeat>              every spec sequentially on one goroutine (orderSeed 0: file order)
 //	c18 multi <specs> <groups> <out>                          several inputs through ONE Interp (`fq .. f1 f2`) against each input alone
 //	c18 sched <specs> <solo> <scheds> <out>                   TLC-emitted schedules with start gates; the first one runs on a cold registry
@@ -796,8 +796,5 @@ func main() {
 		}
 	default:
 		kit.Fatalf("unknown mode %s", os.Args[1])
-	}
-	if strings.Contains(os.Getenv("C18_DEBUG"), "done") {
-		fmt.Fprintln(os.Stderr, "done")
 	}
 }
